@@ -19,6 +19,17 @@ pub struct C14;
 
 const SWEEP: u64 = 65_536;
 
+/// The error/event numbers SCPI-99 (vol. 2 ch. 21.8) defines and the crate implements as named
+/// errors (copied into the harness: the model never asks the library what is standard).
+pub const STANDARD_CODES: &[i16] = &[
+    0, -100, -101, -102, -103, -104, -105, -108, -109, -110, -111, -112, -113, -114, -115, -120, -121, -123, -124, -128, -130, -131, -134, -138, -140,
+    -141, -144, -148, -150, -151, -158, -160, -161, -168, -170, -171, -178, -180, -181, -183, -184, -200, -201, -202, -203, -210, -211, -212, -213,
+    -214, -215, -220, -221, -222, -223, -224, -225, -226, -230, -231, -232, -233, -240, -241, -250, -251, -252, -253, -254, -255, -256, -257, -258,
+    -260, -261, -270, -271, -272, -273, -274, -275, -276, -277, -278, -280, -281, -282, -283, -284, -285, -286, -290, -291, -292, -293, -294, -300,
+    -310, -311, -312, -313, -314, -315, -320, -321, -330, -340, -350, -360, -361, -362, -363, -365, -400, -410, -420, -430, -440, -500, -600, -700,
+    -800,
+];
+
 fn sweep_tree() -> TreeDesc {
     TreeDesc {
         mandated: true,
@@ -74,6 +85,8 @@ impl Prop for C14 {
             "library_command_error",
             "library_execution_error_range",
             "library_execution_error_buffer",
+            "standard_code_lookup",
+            "library_execution_error_below_minimum",
         ];
         v.into_iter().map(String::from).collect()
     }
@@ -184,7 +197,10 @@ impl Prop for C14 {
                         Contrib::StatReg(Reg::Ques, RegCmd::Ptr),
                     ]);
                     let max = if matches!(c, Contrib::Ese | Contrib::Sre) { 255 } else { 65535 };
-                    let p = if g.rng.chance(1, 2) {
+                    let p = if g.rng.chance(1, 6) {
+                        // below the minimum of the (unsigned) target
+                        Elem::Dec(format!("-{}", 1 + g.rng.below(70000)))
+                    } else if g.rng.chance(1, 2) {
                         let v = max + 1 + g.rng.below(5000);
                         if g.rng.chance(1, 3) {
                             Elem::NonDec {
@@ -262,6 +278,9 @@ impl Prop for C14 {
                             }
                         } else if want_exec {
                             stats.probe(if *exp == ExpErr::Code(-225) { "library_execution_error_buffer" } else { "library_execution_error_range" });
+                            if s.msg.units.iter().any(|u| matches!(u.params.first(), Some(Elem::Dec(d)) if d.starts_with('-'))) {
+                                stats.probe("library_execution_error_below_minimum");
+                            }
                             if !is_execution_error(e.code) {
                                 out.push(Finding::new(
                                     "C14.library_error_class",
@@ -336,6 +355,38 @@ fn check_sweep(trace: &Trace, stats: &mut Stats) -> Vec<Finding> {
         i16::MIN => stats.probe("i16_min"),
         i16::MAX => stats.probe("i16_max"),
         _ => {}
+    }
+    // 0. looking a standard code up yields the error that reports that same code
+    {
+        let looked = std::panic::catch_unwind(|| scpi::error::ErrorCode::get_error(code).map(|e| e.get_code()));
+        match looked {
+            Ok(Some(c)) if c != code => {
+                out.push(Finding::new(
+                    "C14.lookup",
+                    "lookup_yields_error_with_different_code",
+                    0,
+                    format!("ErrorCode::get_error({}) yields an error that reports code {}", code, c),
+                ));
+                return out;
+            }
+            Ok(None) if STANDARD_CODES.contains(&code) => {
+                out.push(Finding::new(
+                    "C14.lookup",
+                    "standard_code_not_found",
+                    0,
+                    format!("ErrorCode::get_error({}) yields nothing although {} is a standard SCPI error number", code, code),
+                ));
+                return out;
+            }
+            Err(_) => {
+                out.push(Finding::new("C14.lookup", "lookup_panicked", 0, format!("ErrorCode::get_error({}) panicked: {}", code, crate::exec::take_panic())));
+                return out;
+            }
+            _ => {}
+        }
+        if STANDARD_CODES.contains(&code) {
+            stats.probe("standard_code_lookup");
+        }
     }
     // 1. the failing message
     stats.add("steps", 3);
